@@ -444,7 +444,8 @@ def generate(seed, index):
                 second = W.pick(rng, others) if others and rng.random() < 0.8 else target
                 for cid in (target, second):
                     tree = trees[cfgs[cid]["tree"]]
-                    sop = {"op": "scan", "ev": f"E{len(evs)}", "cfg": cid}
+                    sop = {"op": "scan", "ev": f"E{len(evs)}", "cfg": cid,
+                           **({"cold": True} if rng.random() < 0.5 else {})}
                     order = _listing_order(rng, tree, swarm["shuffle_listing"])
                     if order:
                         sop["order"] = order
@@ -466,7 +467,39 @@ def generate(seed, index):
                 # F12: an evaluation (or a scan) is cancelled at a chosen point inside the
                 # library; the cancelled rule object is not judged afterwards, everything else
                 # (the evaluable, other rule objects, later scans) is
-                if rng.random() < 0.75:
+                r12 = rng.random()
+                if r12 < 0.3:
+                    # cold start: the cancelled evaluation is the FIRST thing that happens on a fresh
+                    # evaluable (whatever a library remembers per architecture is being filled right
+                    # then); other rules of the same project are evaluated on it straight afterwards
+                    oid = new_rule_obj(W.pick(rng, spec_ids), c)
+                    cid = specs[robjs[oid]]["target"]
+                    tree = trees[cfgs[cid]["tree"]]
+                    sop = {"op": "scan", "ev": f"E{len(evs)}", "cfg": cid, "cold": True}
+                    order = _listing_order(rng, tree, swarm["shuffle_listing"])
+                    if order:
+                        sop["order"] = order
+                    evs[sop["ev"]] = cid
+                    client_ops[c].append(sop)
+                    own_evs.setdefault(cid, []).append(sop["ev"])
+                    ev_of_cfg[cid].append(sop["ev"])
+                    k = int(round(10 ** (rng.random() * 3.6)))
+                    client_ops[c].append({"op": "apply", "obj": oid, "ev": sop["ev"], "abort_at": k,
+                                          "key": f"{robjs[oid]}|{cid}", "nosnap": True})
+                    used_pairs.append((robjs[oid], cid))
+                    same_target = [x for x in spec_ids if specs[x]["target"] == cid]
+                    n_more = rng.randint(2, 4)
+                    for j in range(n_more):
+                        # the same specification on a new object, or another rule of the project
+                        sid2 = robjs[oid] if rng.random() < 0.3 else W.pick(rng, same_target)
+                        o2 = new_rule_obj(sid2, c)
+                        own.append(o2)
+                        client_ops[c].append({"op": "apply", "obj": o2, "ev": sop["ev"],
+                                              "key": f"{sid2}|{cid}",
+                                              **({"nosnap": True} if j < n_more - 1 else {})})
+                        used_pairs.append((sid2, cid))
+                        budget -= 1
+                elif r12 < 0.75:
                     oid = new_rule_obj(W.pick(rng, spec_ids), c)
                     cid = specs[robjs[oid]]["target"]
                     ev = W.pick(rng, [ev_of_cfg[cid][0]] + own_evs.get(cid, []))
@@ -562,7 +595,8 @@ def generate(seed, index):
             for cid in seq:
                 if swarm["rescan"] and rng.random() < 0.08:
                     tree = trees[cfgs[cid]["tree"]]
-                    op = {"op": "scan", "ev": f"E{len(evs)}", "cfg": cid}
+                    op = {"op": "scan", "ev": f"E{len(evs)}", "cfg": cid,
+                          **({"cold": True} if rng.random() < 0.3 else {})}
                     order = _listing_order(rng, tree, True)
                     if order:
                         op["order"] = order
